@@ -20,10 +20,23 @@ type walker struct {
 	rows  []row
 	calls []callSite
 	// deferred lock releases seen so far are applied at function exit
-	deferRel []string // facts "L:lock|M"
+	deferRel []string   // facts "L:lock|M"
+	sc       *scopeNode // non-nil in scoped (context-sensitive) mode
+	curOp    string     // sync/atomic operation being applied to the selector under evaluation
 }
 
 func (w *world) analyze(fn *Fn, emit bool) {
+	entry := state{must: fn.entryMust.clone(), may: fn.entryMay.clone()}
+	if entry.must == nil {
+		entry.must = set{}
+	}
+	fn.rows, fn.calls, fn.exitMust, fn.exitMay = w.runFn(fn, entry, emit, nil)
+}
+
+// runFn: flow-sensitive analysis of one function body from the given entry state.
+// With sc != nil (scoped, context-sensitive mode) calls into functions of these packages are followed:
+// the callee is analysed for exactly the lock state at the call and its exit state replaces the caller's.
+func (w *world) runFn(fn *Fn, entry state, emit bool, sc *scopeNode) (rows []row, calls []callSite, exitMust, exitMay set) {
 	g := fn.g
 	in := make([]state, len(g.Blocks))
 	out := make([]state, len(g.Blocks))
@@ -33,12 +46,8 @@ func (w *world) analyze(fn *Fn, emit bool) {
 			preds[s.Index] = append(preds[s.Index], b.Index)
 		}
 	}
-	entry := state{must: fn.entryMust.clone(), may: fn.entryMay.clone()}
-	if entry.must == nil {
-		entry.must = set{}
-	}
 	run := func(b *cfg.Block, st state, emit bool) (*walker, state) {
-		wk := &walker{w: w, fn: fn, info: fn.pkg.TypesInfo, st: st.clone(), emit: emit}
+		wk := &walker{w: w, fn: fn, info: fn.pkg.TypesInfo, st: st.clone(), emit: emit, sc: sc}
 		for _, n := range b.Nodes {
 			wk.node(n)
 		}
@@ -78,29 +87,142 @@ func (w *world) analyze(fn *Fn, emit bool) {
 		}
 	}
 	// final pass: rows, call sites, exit state
-	fn.rows, fn.calls = nil, nil
-	fn.exitMust, fn.exitMay = nil, set{}
+	exitMay = set{}
 	var allDefer []string
 	for _, b := range g.Blocks {
 		if !b.Live || in[b.Index].must == nil {
 			continue
 		}
 		wk, o := run(b, in[b.Index], emit)
-		fn.rows = append(fn.rows, wk.rows...)
-		fn.calls = append(fn.calls, wk.calls...)
+		rows = append(rows, wk.rows...)
+		calls = append(calls, wk.calls...)
 		allDefer = append(allDefer, wk.deferRel...)
 		if len(b.Succs) == 0 {
-			fn.exitMust = meet(fn.exitMust, o.must)
-			fn.exitMay = union(fn.exitMay, o.may)
+			exitMust = meet(exitMust, o.must)
+			exitMay = union(exitMay, o.may)
 		}
 	}
 	// deferred releases run at every exit (a defer that was not reached on some path releases nothing there;
 	// on this code base defers directly follow the acquisition, a mismatch shows up as an unbalanced function)
 	for _, f := range allDefer {
-		if fn.exitMust != nil {
-			delete(fn.exitMust, f)
+		if exitMust != nil {
+			delete(exitMust, f)
 		}
-		delete(fn.exitMay, f)
+		delete(exitMay, f)
+		lock := f[2:strings.LastIndex(f, "|")]
+		closeSections(exitMay, lock)
+	}
+	return
+}
+
+// closeSections: the lock is released: its section instances end (remembered as "P:" = a section of this
+// lock opened at that site has been completed earlier in this execution).
+func closeSections(may set, lock string) {
+	for f := range may {
+		if strings.HasPrefix(f, "S:"+lock+"|") {
+			delete(may, f)
+			id := strings.TrimSuffix(f[len("S:"+lock+"|"):], "+")
+			may["P:"+lock+"|"+id] = true
+		}
+	}
+}
+
+// secFacts: the section-instance facts of a may set, as "lock|id" strings
+func secList(may set) []string {
+	var r []string
+	for _, f := range may.sorted() {
+		if strings.HasPrefix(f, "S:") {
+			r = append(r, f[2:])
+		}
+	}
+	return r
+}
+
+// ---------------------------------------------------------------------------
+// scoped (context-sensitive) analysis: accesses as executed within a root function and its callees
+
+type scopeNode struct {
+	fn       *Fn
+	key      string
+	rows     []row
+	children []*scopeNode
+	exitMust set
+	exitMay  set
+	done     bool
+}
+
+func lspFacts(s set) set {
+	r := set{}
+	for k := range s {
+		if strings.HasPrefix(k, "L:") || strings.HasPrefix(k, "S:") || strings.HasPrefix(k, "P:") {
+			r[k] = true
+		}
+	}
+	return r
+}
+
+func (w *world) scoped(fn *Fn, entry state) *scopeNode {
+	key := fn.key + "||" + strings.Join(entry.must.sorted(), ",") + "||" + strings.Join(entry.may.sorted(), ",")
+	if n := w.scopeMemo[key]; n != nil {
+		if !n.done {
+			return nil // recursion: treated as having no effect on the lock state
+		}
+		return n
+	}
+	n := &scopeNode{fn: fn, key: key}
+	w.scopeMemo[key] = n
+	rows, _, em, ey := w.runFn(fn, entry, true, n)
+	n.rows, n.exitMust, n.exitMay = rows, em, ey
+	// children were appended during every dataflow iteration: keep each once
+	seen := map[*scopeNode]bool{}
+	var ch []*scopeNode
+	for _, c := range n.children {
+		if !seen[c] {
+			seen[c] = true
+			ch = append(ch, c)
+		}
+	}
+	n.children = ch
+	n.done = true
+	return n
+}
+
+// enterCallee (scoped mode): analyse the callees for the lock state at the call and continue with their exit state.
+func (k *walker) enterCallee(callees []*Fn) {
+	entry := state{must: lockFacts(k.st.must), may: lspFacts(k.st.may)}
+	var outMust, outMay set
+	any := false
+	for _, c := range callees {
+		n := k.w.scoped(c, entry.clone())
+		if n == nil {
+			continue
+		}
+		if k.emit {
+			k.sc.children = append(k.sc.children, n)
+		}
+		if n.exitMust == nil {
+			continue // does not return
+		}
+		any = true
+		outMust = meet(outMust, lockFacts(n.exitMust))
+		outMay = union(outMay, lspFacts(n.exitMay))
+	}
+	if !any {
+		return
+	}
+	for f := range k.st.must {
+		if strings.HasPrefix(f, "L:") {
+			delete(k.st.must, f)
+		}
+	}
+	for f := range lspFacts(k.st.may) {
+		delete(k.st.may, f)
+	}
+	for f := range outMust {
+		k.st.must[f] = true
+	}
+	for f := range outMay {
+		k.st.may[f] = true
 	}
 }
 
@@ -126,6 +248,7 @@ func (k *walker) base(kind string, p token.Pos) row {
 	f, l, c := k.w.pos(p)
 	r := row{kind: kind, file: f, line: l, col: c, fn: k.fn.key}
 	r.must, r.may, r.rel = k.heldLists()
+	r.sec = secList(k.st.may)
 	return r
 }
 
@@ -139,6 +262,10 @@ func (k *walker) unknown(p token.Pos, what string) {
 }
 
 func (k *walker) access(p token.Pos, fv *types.Var, akind string, atomic, fresh bool) {
+	k.accessOp(p, fv, akind, atomic, fresh, "")
+}
+
+func (k *walker) accessOp(p token.Pos, fv *types.Var, akind string, atomic, fresh bool, op string) {
 	owner := k.w.fieldOwner[fv]
 	if !trackedStructs[owner] || isSyncLock(fv.Type()) {
 		return
@@ -147,7 +274,7 @@ func (k *walker) access(p token.Pos, fv *types.Var, akind string, atomic, fresh 
 		return
 	}
 	r := k.base("access", p)
-	r.typ, r.field, r.akind, r.atomic, r.fresh = owner, fv.Name(), akind, atomic, fresh
+	r.typ, r.field, r.akind, r.atomic, r.fresh, r.op = owner, fv.Name(), akind, atomic, fresh, op
 	k.rows = append(k.rows, r)
 }
 
@@ -317,7 +444,14 @@ func (k *walker) deferStmt(s *ast.DeferStmt) {
 			k.expr(a)
 		}
 		if fn := k.w.byLit[lit]; fn != nil {
-			k.calls = append(k.calls, callSite{callee: fn, must: set{}, may: k.st.may.clone(), pos: s.Pos()})
+			if k.sc != nil {
+				// runs at function exit: its accesses belong to the root's execution; lock state not modelled
+				if n := k.w.scoped(fn, state{must: set{}, may: lspFacts(k.st.may)}); n != nil && k.emit {
+					k.sc.children = append(k.sc.children, n)
+				}
+			} else {
+				k.calls = append(k.calls, callSite{callee: fn, must: set{}, may: k.st.may.clone(), pos: s.Pos()})
+			}
 		}
 		return
 	}
@@ -429,7 +563,7 @@ func (k *walker) funcLit(lit *ast.FuncLit) {
 		// reached through a function-valued field: handled at the call
 		return
 	}
-	if fn := k.w.byLit[lit]; fn != nil && fn.isEntry && fn.ctxs[cxClosure] {
+	if fn := k.w.byLit[lit]; fn != nil && fn.isEntry && fn.ctxs[cxClosure] && k.sc == nil {
 		// a plain closure may be invoked synchronously by whoever receives it
 		k.calls = append(k.calls, callSite{callee: fn, must: set{}, may: k.st.may.clone(), pos: lit.Pos()})
 	}
@@ -463,7 +597,7 @@ func (k *walker) selector(sel *ast.SelectorExpr, akind string, atomic bool) {
 	}
 	k.pathReads(sel, s, len(s.Index())-1, fresh)
 	if fv, ok := s.Obj().(*types.Var); ok {
-		k.access(sel.Sel.Pos(), fv, akind, atomic, fresh)
+		k.accessOp(sel.Sel.Pos(), fv, akind, atomic, fresh, k.curOp)
 		if akind == "cwrite" || akind == "cread" {
 			// the container header is read as well: same field, same policy; one row is enough
 		}
@@ -699,7 +833,27 @@ func (k *walker) call(call *ast.CallExpr) {
 					if atomicRead[callee.Name()] {
 						ak = "read"
 					}
+					op := "Other"
+					switch n := callee.Name(); {
+					case strings.HasPrefix(n, "Load"):
+						op = "Load"
+					case strings.HasPrefix(n, "Add"):
+						op = "Add"
+					case strings.HasPrefix(n, "CompareAndSwap"):
+						op = "CAS"
+					case strings.HasPrefix(n, "Swap"):
+						op = "Swap"
+					case strings.HasPrefix(n, "Store"):
+						op = "Store"
+						if len(call.Args) == 2 {
+							if tv, ok := info.Types[call.Args[1]]; ok && tv.Value != nil && tv.Value.String() == "0" {
+								op = "Store0"
+							}
+						}
+					}
+					k.curOp = op
 					k.selector(sel, ak, true)
+					k.curOp = ""
 					handled = true
 				}
 			}
@@ -747,9 +901,19 @@ func (k *walker) call(call *ast.CallExpr) {
 		k.expr(a)
 	}
 	// the call itself
+	var scopedCallees []*Fn
 	site := func(fn *Fn) {
+		if k.sc != nil {
+			scopedCallees = append(scopedCallees, fn)
+			return
+		}
 		k.calls = append(k.calls, callSite{callee: fn, must: k.st.must.clone(), may: k.st.may.clone(), pos: call.Pos()})
 	}
+	defer func() {
+		if k.sc != nil && len(scopedCallees) > 0 {
+			k.enterCallee(scopedCallees)
+		}
+	}()
 	ext := func(what string) {
 		switch what {
 		case "time.Sleep":
@@ -815,6 +979,7 @@ func (k *walker) applyLock(p token.Pos, op, lock string) {
 		if k.emit {
 			r := k.base("acquire", p)
 			r.typ, r.field = lock, mode
+			r.what = fmt.Sprintf("%s:%d", r.file, r.line)
 			k.rows = append(k.rows, r)
 		}
 		if strings.HasPrefix(lock, "?") {
@@ -822,6 +987,18 @@ func (k *walker) applyLock(p token.Pos, op, lock string) {
 		}
 		k.st.must[fact] = true
 		k.st.may[fact] = true
+		// open a section instance: id = acquisition site, "+" when a section opened here may already have been completed
+		f, l, _ := k.w.pos(p)
+		id := fmt.Sprintf("%s:%d", f, l)
+		for sf := range k.st.may {
+			if strings.HasPrefix(sf, "S:"+lock+"|") {
+				delete(k.st.may, sf)
+			}
+		}
+		if k.st.may["P:"+lock+"|"+id] {
+			k.st.may["S:"+lock+"|"+id+"+"] = true
+		}
+		k.st.may["S:"+lock+"|"+id] = true
 	case "Unlock", "RUnlock":
 		if !k.st.may[fact] {
 			k.unknown(p, "release of "+lock+" ("+mode+") which is not held on any path")
@@ -830,6 +1007,7 @@ func (k *walker) applyLock(p token.Pos, op, lock string) {
 		}
 		delete(k.st.must, fact)
 		delete(k.st.may, fact)
+		closeSections(k.st.may, lock)
 		k.st.must["X:"+lock] = true
 	default:
 		k.unknown(p, "unsupported lock operation "+op+" on "+lock)
